@@ -181,6 +181,15 @@ def answer (line : String) : String :=
     match nats [bits, hs, ha, ts, ta, len], hsCtor? c with
     | some [bits, hs, ha, ts, ta, len], some c => qHs bits ⟨hs, ha⟩ ⟨ts, ta⟩ len c
     | _, _ => "bad-query"
+  | ["thin", bits, hs, ha, ts, ta, len, "badlen"] =>
+    -- a fat Arc with a recorded length that disagrees, handed to `into_thin`: built by
+    -- `from_header_and_slice` (which may refuse first), then refused by `assert_eq!(length, slice.len())`
+    match nats [bits, hs, ha, ts, ta, len] with
+    | some [bits, hs, ha, ts, ta, len] =>
+      match ctorHeaderSlice bits .slice (headerWithLengthLayout bits ⟨hs, ha⟩).1 ⟨ts, ta⟩ len with
+      | .ok _ => "st=panic:length-mismatch"
+      | r => (refused r).getD "st=?"
+    | _ => "bad-query"
   | ["thin", bits, hs, ha, ts, ta, len, c] =>
     match nats [bits, hs, ha, ts, ta, len], hsCtor? c with
     | some [bits, hs, ha, ts, ta, len], some c => qThin bits ⟨hs, ha⟩ ⟨ts, ta⟩ len c
